@@ -52,7 +52,7 @@ def random_setup(rng, allow_unnamed=False, codon_starts=False, mod3_segments=Fal
     n = rng.choice([30, 45, 60, 90])
     genome = gen.rand_seq(rng, n)
     feats = anno.random_features(rng, n, max_feats=3, allow_unnamed=allow_unnamed, codon_starts=codon_starts,
-                                 mod3_segments=mod3_segments)
+                                 mod3_segments=mod3_segments, rotate=0.15)
     genome, feats = anno.patch_stops(rng, genome, feats)
     nq = nq or rng.randint(1, 4)
     ref_row, rows = anno.make_msa(rng, genome, nq, with_insertions=insertions)
